@@ -319,7 +319,7 @@ def run(ctx):
                 ctx.sample({"site": "proxy", "reply": reply, "expected": list(map(str, expected(reply)))})
     ctx.exhaustive["directed error table x envelopes (thorough tier only)"] = not ctx.quick
     # batches: every position
-    nb = ctx.pick(300, 40000)
+    nb = ctx.pick(1500, 40000)
     for _ in range(nb):
         n = rng.randint(1, 6)
         batch = [rand_reply(rng) for _ in range(n)]
@@ -328,7 +328,7 @@ def run(ctx):
         for pos, obs in enumerate(drv.observe_iter(batch)):
             run_case(ctx, drv, "multicall-iter", batch[pos], pos, batch, obs=obs)
     # random singles
-    nr = ctx.pick(2500, 300000)
+    nr = ctx.pick(10000, 300000)
     for _ in range(nr):
         reply = rand_reply(rng)
         for site in sites[:2] + ("proxy-notify",):
